@@ -171,6 +171,7 @@ def preimage(db, rep):
 
 
 def threshold(db, rep):
+    import re
     cfg = db.config
     fn = db.fn(VERIFY_POW, 'C09.threshold')
     T = exprtree.Trees(db, fn)
@@ -191,6 +192,16 @@ def threshold(db, rep):
             if m and n and 'from_bytes_be' in sa and 'finalize' in sa:
                 undecided = False
                 ok = t['f'].get('name') == 'lt' and int(m.group(1)) * 8 == int(n.group(1)) and bool(gs)
+    # no modular reduction: a digest enters the field only through a constant sub-range of at most 31 bytes
+    for bi, t in fn.calls():
+        if t['f'].get('name') in ('from_bytes_be_slice', 'from_bytes_be', 'from_bytes_le', 'from_bytes_le_slice'):
+            a = T.operand(t['args'][0])
+            sa = exprtree.show(a)
+            m = re.search(r'Range\{start: (\d+), end: (\d+)\}', sa) if 'finalize' in sa else None
+            width = int(m.group(2)) - int(m.group(1)) if m else None
+            rep.ob('C09.threshold', 'no-field-reduction', 'finalize' not in sa or (width is not None and width <= 31),
+                   f'hash bytes converted to a field element: {sa[:120]} (width {width} bytes): a 32-byte value is reduced modulo p, so hashes just '
+                   'above a multiple of p compare as small', fn.loc(t['line']), cfg)
     if undecided:
         rep.undecided.append('C09.threshold: threshold written in an unrecognised form; not decided (no alarm)')
     else:
